@@ -56,7 +56,7 @@ def item_types(facts):
         if a["crate"] == "xml_info" and a["kind"] == "struct" and \
                 any(fl["ty"].endswith("Context") or fl["ty"].endswith("Context>") for fl in a["variants"][0]["fields"]):
             it.add(p.split("::")[-1])
-    if len(it) < 12:
+    if len(it) < 7:
         raise BrokenCheck("mutator set: only %d item types recognised" % len(it))
     return it
 
